@@ -94,6 +94,7 @@ inductive HOp where
   | num (template : String) (pid : List Nat) (randomize : Bool)
   | alpha (template : String) (pid : List Nat) (alphabet : String) (minChars : Nat) (randomize : Bool)
   | draw (handle : Nat)
+  | restore (template : String) (pid : List Nat) (randomize : Bool) (start : Nat)
 
 def parseHOp (j : Json) : Except String HOp := do
   let a ← j.getArr?
@@ -106,6 +107,8 @@ def parseHOp (j : Json) : Except String HOp := do
       | _ => ""
     pure (.alpha (← t.getStr?) (← (← pid.getArr?).toList.mapM (·.getNat?)) als (← mc.getNat?) (← r.getBool?))
   | [Json.str "draw", h] => pure (.draw (← h.getNat?))
+  | [Json.str "restore", t, pid, r, st] =>
+    pure (.restore (← t.getStr?) (← (← pid.getArr?).toList.mapM (·.getNat?)) (← r.getBool?) (← st.getNat?))
   | _ => throw "bad op"
 
 def needsOfDraw (lt : LgTable) (mt : MaskTable) (g : Gen) (acc : Needs) : Needs :=
@@ -134,6 +137,8 @@ def runH (lt : LgTable) (mt : MaskTable) :
         | _ => runH lt mt p1 (hs ++ [none]) ops (outJ out :: outs) nd
     match op with
     | .num t pid r => create ((parseTemplate t).map (fun ps => Op.newNumeric ps pid r))
+    | .restore t pid r st =>
+      create ((parseTemplate t).map (fun ps => Op.restore { parts := ps, randomize := r, start := st } pid))
     | .alpha t pid al mc r => create ((parseTemplate t).map (fun ps => Op.newAlpha ps pid al.toList mc r))
     | .draw h =>
       match hs[h]? with
@@ -144,6 +149,14 @@ def runH (lt : LgTable) (mt : MaskTable) :
         let (p1, out) := step (lgF lt) (maskF mt) p (Op.draw g)
         runH lt mt p1 hs ops (outJ out :: outs) nd1
       | _ => runH lt mt p hs ops (outJ .noSuchGen :: outs) nd
+
+/-- final state of a generator: context number, `start`, counter, and what `__reduce__` persists -/
+def genJ (g : Gen) : Json :=
+  let saved := match reduceGen g with
+    | some sv => Json.mkObj [("parts", Json.arr (sv.parts.map partJ).toArray), ("randomize", Json.bool sv.randomize),
+                             ("start", natJ sv.start)]
+    | none => Json.null
+  Json.mkObj [("ctx", natJ g.cfg.ctx), ("start", natJ g.start), ("counter", natJ g.counter), ("saved", saved)]
 
 def handle (m : String) (j : Json) : Except String Json := do
   match m with
@@ -190,7 +203,8 @@ def handle (m : String) (j : Json) : Except String Json := do
     let lt ← parseLg j
     let mt ← parseMasks j
     let (p, outs, nd) := runH lt mt (Proc.init first) [] ops [] {}
-    pure (Json.mkObj ([("outs", Json.arr outs.toArray), ("next_ctx", natJ p.nextCtx)] ++ needsJ nd))
+    pure (Json.mkObj ([("outs", Json.arr outs.toArray), ("next_ctx", natJ p.nextCtx),
+                       ("gens", Json.arr (p.gens.map genJ).toArray)] ++ needsJ nd))
   | _ => throw s!"unknown method {m}"
 
 end SnowModel.Drv.C13
